@@ -140,6 +140,14 @@ def complementTwice (alphabet : List Char) (c : Char) : Option Char :=
   | none => none
   | some d => complementChar alphabet d
 
+/-- `Sequence(text, alphabet, validate_alphabet=False).reverse_complement()` as a string (sequence.py:185-193):
+    `"".join(rc_map[c] for c in reversed(str(self)))`; AlphabetError (`none`) for an alphabet without complement map or
+    a character outside the map -/
+def reverseComplement (alphabet : List Char) (text : List Char) : Option (List Char) :=
+  match Gen.complementMaps.lookup alphabet with
+  | none => none                                   -- `not self.alphabet.is_nucleotide_alphabet()`: refused, also when empty
+  | some _ => text.reverse.mapM (complementChar alphabet)
+
 /-- `Alphabet[name].value` and `.is_nucleotide_alphabet()` -/
 def alphabetInfo (name : List Char) : PyR (List Char × Bool) :=
   match Gen.alphabets.lookup name with
